@@ -1,8 +1,10 @@
 (* C04 — legality of identifiers (field identifiers and struct names).  Definitions of
    `name_ok`, `ident_ok`, `struct_name_ok`, `tree_names_ok`, `subnode`, `lastn` are in
    Proofs/ConvertProofs.v (the legality predicates are the same as in Corr/Oracles.v).
-   `name_ok` requires `case_closed` characters: see the finding at the top of ConvertProofs.v
-   and `C04_name_ok0_insufficient` below. *)
+   `name_ok` carries a `case_closed` conjunct for historical reasons; since the character table
+   is closed under the case mappings it is implied by `in_sigma` (`C04_case_closed_sigma`), so
+   `name_ok` is exactly "characters of Sigma that are identifier characters or - . :, with a letter
+   before any digit-like character" (`C04_name_ok_plain`). *)
 From XSG.Model Require Import Strings Chars Convert Necessity Element Render.
 From XSG.Proofs Require Import ConvertProofs.
 From Coq Require Import String.
@@ -47,11 +49,16 @@ Theorem C04_keywords_complete : forall k : str,
   is_keyword k = true.
 Proof. exact keywords_complete. Qed.
 
-(* the hypothesis without `case_closed` is too weak for the model (U+023A lowercases to U+2C65,
-   outside Sigma, which the model does not classify as an identifier character) *)
-Example C04_name_ok0_insufficient :
-  name_ok0 [570] = true /\ ident_chars_ok (to_snake_case [570]) = false.
-Proof. exact name_ok0_insufficient_snake. Qed.
+(* Sigma is closed under to_lowercase / to_uppercase: the model classifies every character that
+   convert_string can produce from a name over Sigma *)
+Theorem C04_case_closed_sigma : forall c, in_sigma c = true -> case_closed c = true.
+Proof. exact case_closed_sigma. Qed.
+Theorem C04_name_ok_plain : forall x, name_ok0 x = name_ok x.
+Proof. exact name_ok0_ok. Qed.
+(* U+023A lowercases to U+2C65, outside U+00A0..U+052F: covered because the table holds the image *)
+Example C04_case_image_outside_range :
+  name_ok0 [570] = true /\ ident_chars_ok (to_snake_case [570]) = true.
+Proof. exact name_ok0_sufficient_snake. Qed.
 
 Print Assumptions C04_valid_key_legal.
 Print Assumptions C04_field_ident_legal.
@@ -59,4 +66,6 @@ Print Assumptions C04_field_idents_legal.
 Print Assumptions C04_struct_name_legal.
 Print Assumptions C04_struct_step_legal.
 Print Assumptions C04_keywords_complete.
-Print Assumptions C04_name_ok0_insufficient.
+Print Assumptions C04_case_closed_sigma.
+Print Assumptions C04_name_ok_plain.
+Print Assumptions C04_case_image_outside_range.
